@@ -982,13 +982,31 @@ def _dedupe_res(res):
     return out
 
 
-def decide(R, rule, key, verdict, ok_msg, bad_msg, und_msg="", loc=None):
-    """three-valued instance: True -> HOLDS, False -> VIOLATED (positive evidence only), None -> UNDECIDED"""
+def decide(R, rule, key, verdict, ok_msg, bad_msg, und_msg="", loc=None, dev=None):
+    """three-valued instance: True -> HOLDS, False -> VIOLATED (positive evidence only), None -> UNDECIDED.
+    `dev` is the direction of the deviation when it is known: "lenient" (something invalid is accepted: a violation of C03 only),
+    "strict" (something valid is rejected: a violation of C04 only), "both"/None (either, or not determinable).  The rules C03 and
+    C04 share run under both properties; each property reports only the deviations of its own direction."""
     if verdict is None:
         R.undecided(rule, key, und_msg or ("shape not recognised; " + ok_msg), loc=loc)
+    elif verdict is False and dev in ("lenient", "strict") and getattr(R, "direction", None) in ("lenient", "strict") and dev != R.direction:
+        R.holds(rule, key, "deviates, but towards %s only (%s): reported under %s, this property holds here"
+                % ("accepting too much" if dev == "lenient" else "rejecting too much", bad_msg[:160], "C03" if dev == "lenient" else "C04"), loc=loc)
     else:
         R.check(rule, key, bool(verdict), ok_msg, bad_msg, loc=loc)
     return verdict
+
+
+def directed(fn, direction):
+    """run a rule under the property whose violations have this direction"""
+    def run(P, R):
+        old = getattr(R, "direction", None)
+        R.direction = direction
+        try:
+            return fn(P, R)
+        finally:
+            R.direction = old
+    return run
 
 
 def anchors_present(P, R, rule, key, fields=(), methods=(), loc=None):
@@ -1257,7 +1275,7 @@ def source_nodes(P, pv, expr, depth=2):
                 todo.extend((src, v, d) for src, _ in v.src.get(y["local"], []) if src is not None)
             if d > 0 and y.get("k") in ("Call", "MethodCall"):
                 g = P.fns.get(call_name(y) or "")
-                if g is not None and g.crate == "nitrogql_checker" and not g.derived and ("f", g.path) not in seen:
+                if g is not None and not g.derived and g.kind in ("Fn", "AssocFn") and ("f", g.path) not in seen:
                     seen.add(("f", g.path))
                     todo.append((g.body, MProv(g), d - 1))
     return nodes
@@ -1292,17 +1310,34 @@ def _param_index(f, pred, default=None):
     return default
 
 
+def directive_checkers(P, cd):
+    """{path: (index of the directives parameter, index of the location parameter)} of check_directives and of the functions that
+    do the same job on the same parameters next to it (a worker it wraps, or a wrapper around it): they take a list of
+    directives and a location string and are linked to it by a call"""
+    out = {}
+    for g in [cd] + [h for h in P.fns.values() if h.crate == cd.crate and h.kind in ("Fn", "AssocFn") and not h.derived and h.path != cd.path]:
+        di = _param_index(g, lambda t: "directive::Directive" in t and t.startswith("&["))
+        li = _param_index(g, lambda t: t in ("&str", "&'staticstr"))
+        if g is cd:
+            out[g.path] = (di if di is not None else 2, li if li is not None else 3)
+        elif di is not None and li is not None and (cd.path in P.callees_of(g)[0] or g.path in P.callees_of(cd)[0]):
+            out[g.path] = (di, li)
+    return out
+
+
 def directive_sites(P, fns):
     """[(fn, call node, {(adt, field)} of the directives argument, set of location literals, {operation kind: literal} | None,
     atoms of the directives argument)] for every call of check_directives inside `fns`"""
     cd = role_fn(P, CK + "common::check_directives")
-    di = _param_index(cd, lambda t: "directive::Directive" in t, 2)
-    li = _param_index(cd, lambda t: t in ("&str", "&'staticstr"), 3)
+    family = directive_checkers(P, cd)
     out = []
     for f in fns:
+        if f.path in family:
+            continue       # the wrapper handing its own parameters to the worker is not a position of its own
         pv = None
         for c in f.walk():
-            if c.get("k") in ("Call", "MethodCall") and (call_name(c) or "") == cd.path:
+            if c.get("k") in ("Call", "MethodCall") and (call_name(c) or "") in family:
+                di, li = family[call_name(c)]
                 args = all_args(c)
                 if max(di, li) >= len(args):
                     continue
@@ -1406,6 +1441,21 @@ def every_element_checked(P, R, disp, adt):
         payload = norm(var["fields"][0]["ty"]).split("<")[0].lstrip("&")
         sites = [i for i, (x, _) in enumerate(g.nodes()) if x.get("k") in ("Call", "MethodCall") and (call_name(x) or "") in P.fns
                  and P.fns[call_name(x)].crate == disp.crate and _takes(P.fns[call_name(x)], payload) and call_name(x) != disp.path]
+        # only the hand-over itself: a call in the dispatcher's own body, or in a helper that was given the whole enum value to
+        # dispatch on — not calls made further down, inside functions that received the element (or something else)
+        acc_ = g.nodes()
+
+        def below_checker(i):
+            p = acc_[i][1]
+            while p >= 0:
+                n_ = acc_[p][0]
+                if n_.get("k") in ("Call", "MethodCall") and "inl" in n_ and any(y is acc_[i][0] for y in subnodes(n_["inl"])):
+                    h = P.fns.get(n_["inl"].get("fn"))
+                    if h is None or not _takes(h, adt.path):
+                        return True
+                p = acc_[p][1]
+            return False
+        sites = [i for i in sites if not below_checker(i)]
         if not sites:
             continue
         bad = []
@@ -1736,7 +1786,7 @@ def r03b(P, R):
                "recurses without bound", "no call from %s towards the selection checker carries a stack of names" % short(cfs.path), loc=cfs.loc())
 
 
-def r03c(P, R, only_locations=False):
+def r03c(P, R):
     scope = [P.fns[p] for p in checker_scope(P) if p.startswith((CK, "<" + CK)) and P.fns[p].kind != "Closure"]
     cd = role_fn(P, CK + "common::check_directives")
     sites = directive_sites(P, scope)
@@ -1768,10 +1818,10 @@ def r03c(P, R, only_locations=False):
                 continue
             else:
                 wrong.add(kn)
-            R.check("R03-c", k2, lits == want,
-                    "location %s" % sorted(lits),
-                    "%s checks `%s.directives` against location %s; the GraphQL spec location for that position is %s"
-                    % (f.path, kn[0].split("::")[-1], sorted(lits), sorted(want)), loc=f.loc())
+            decide(R, "R03-c", k2, lits == want,
+                   "location %s" % sorted(lits),
+                   "%s checks `%s.directives` against location %s; the GraphQL spec location for that position is %s"
+                   % (f.path, kn[0].split("::")[-1], sorted(lits), sorted(want)), loc=f.loc(), dev="both")
         known = sorted(known)
         if ("operation::OperationDefinition", "directives") in known:
             # which literal for which kind of operation: evaluate the location expression per kind
@@ -1797,28 +1847,27 @@ def r03c(P, R, only_locations=False):
             decide(R, "R03-c", "dirvars:%s" % inside[0][0].split("::")[-1], v, "directive arguments are checked with the operation's variables in scope",
                    "%s checks directive arguments with a variables argument that never derives from the enclosing operation's "
                    "`variables_definition`: `@include(if: $v)` reports an unknown variable" % f.path,
-                   "the variables argument of %s could not be traced to its origin" % short(f.path), loc=f.loc())
-    if only_locations:
-        return
+                   "the variables argument of %s could not be traced to its origin" % short(f.path), loc=f.loc(), dev="strict")
     for pos, want in sorted(EXEC_LOCATIONS.items()):
         key = "dircover:%s.%s" % (pos[0].split("::")[-1], pos[1])
         if pos in covered:
             R.holds("R03-c", key, "directives at this position are validated")
         elif pos in wrong:
-            R.violated("R03-c", key, "directives written on a %s are not validated against their own location %s" % (pos[0].split("::")[-1], sorted(want)))
+            decide(R, "R03-c", key, False, "", "directives written on a %s are not validated against their own location %s" % (pos[0].split("::")[-1], sorted(want)),
+                   dev="both")
         elif pos in seen_pos or unresolved:
             R.undecided("R03-c", key, "a check_directives call may cover this position, but its arguments were not resolved")
         else:
-            R.violated("R03-c", key, "directives written on a %s are never passed to check_directives: unknown, misplaced or repeated directives "
-                       "there are accepted" % pos[0].split("::")[-1])
+            decide(R, "R03-c", key, False, "", "directives written on a %s are never passed to check_directives: unknown, misplaced or repeated "
+                   "directives there are accepted" % pos[0].split("::")[-1], dev="lenient")
     # check_directives itself: existence, location, repetition, arguments
     g = inlined(P, cd)
     made = {v for v in ("UnknownDirective", "DirectiveLocationNotAllowed", "RepeatedDirective") if makes(P, cd.body, v)}
     for v in ("UnknownDirective", "DirectiveLocationNotAllowed", "RepeatedDirective"):
-        R.check("R03-c", "directive-rule:" + v, v in made, "rule enforced", "check_directives never reports %s" % v, loc=cd.loc())
+        decide(R, "R03-c", "directive-rule:" + v, v in made, "rule enforced", "check_directives never reports %s" % v, loc=cd.loc(), dev="lenient")
     ca = role_fn(P, CK + "common::check_arguments")
-    R.check("R03-c", "directive-rule:arguments", ca.path in P.reachable([cd]), "directive arguments are checked",
-            "check_directives does not check the directive's arguments", loc=cd.loc())
+    decide(R, "R03-c", "directive-rule:arguments", ca.path in P.reachable([cd]), "directive arguments are checked",
+           "check_directives does not check the directive's arguments", loc=cd.loc(), dev="lenient")
     pv = MProv(g)
     posnames = {pv.params.get(p["local"]) for p, t in zip(cd.params, _sig(cd)) if p.get("k") == "Binding" and t in ("&str", "&'staticstr")}
 
@@ -1844,7 +1893,7 @@ def r03c(P, R, only_locations=False):
                guarded_by("RepeatedDirective", lambda a: any(x[0] == "field" and x[2] == "repeatable" for x in a)),
                "repetition allowed only for repeatable directives",
                "RepeatedDirective is not conditional on the definition's `repeatable`",
-               "RepeatedDirective is not built inside check_directives (or its helpers)", loc=cd.loc())
+               "RepeatedDirective is not built inside check_directives (or its helpers)", loc=cd.loc(), dev="strict")
 
 
 def r03d(P, R):
@@ -2172,7 +2221,7 @@ def location_flags(P, R, fns):
 
 def r03h(P, R):
     """recursion argument discipline in the typing helpers"""
-    fns = [P.fns[p] for p in checker_scope(P)] + [f for f in P.fns.values() if f.path.startswith(CK + "types::")]
+    fns = [P.fns[p] for p in checker_scope(P)]      # typing helpers only used by the schema checker belong to C05
     seen = set()
     uniq = []
     for f in fns:
@@ -2180,7 +2229,7 @@ def r03h(P, R):
             seen.add(f.path)
             uniq.append(f)
     n = recursion_args(P, R, "R03-h", uniq)
-    R.floor("R03-h", "checked recursive argument positions", n, 6)
+    R.floor("R03-h", "checked recursive argument positions", n, 4)
     location_flags(P, R, uniq)
 
 
@@ -2535,26 +2584,18 @@ def r03j(P, R):
     # memoisation / state-dependent skipping is decided by the cross-cutting state rule R03-s (rules/xstate.py, templates.memo_rule)
 
 
-def _r04c(P, R):
-    # AreTypesCompatible table (shared with C04): a too-permissive row is a C03 violation, a too-strict one a C04 violation
-    from c04 import r04c
-    r04c(P, R)
+def _shared(name):
+    # tables shared with C04 (rules/c04.py): a row that accepts too much is a C03 violation, one that rejects too much a C04 violation
+    def run(P, R):
+        import c04
+        return getattr(c04, name)(P, R)
+    return run
 
 
-def _r04d(P, R):
-    # fragment applicability (shared with C04): a (scope, condition) pair without a reporting path accepts an impossible spread
-    from c04 import r04d
-    r04d(P, R)
-
-
-def _r04f(P, R):
-    # duplicate-name searches (shared with C04): a search that misses an earlier definition accepts a duplicate
-    from c04 import r04f
-    r04f(P, R)
-
-
-RULES = [("R03-a", r03a), ("R03-b", r03b), ("R03-c", r03c), ("R03-d", r03d), ("R03-e", r03e), ("R03-f", r03f), ("R03-j", r03j),
-         ("R03-g", r03g), ("R03-h", r03h), ("R03-i", r03i), ("R04-c", _r04c), ("R04-d", _r04d), ("R04-f", _r04f)]
+RULES = [(rid, directed(fn, "lenient")) for rid, fn in [
+    ("R03-a", r03a), ("R03-b", r03b), ("R03-c", r03c), ("R03-d", r03d), ("R03-e", r03e), ("R03-f", r03f), ("R03-j", r03j),
+    ("R03-g", r03g), ("R03-h", r03h), ("R03-i", r03i), ("R04-a", _shared("r04a")), ("R04-b", _shared("r04b")), ("R04-c", _shared("r04c")),
+    ("R04-d", _shared("r04d")), ("R04-e", _shared("r04e")), ("R04-f", _shared("r04f"))]]
 EXPLANATION = (
     "`check` applies every implemented rule at every position it governs, decided for all documents: (R03-a) non-interference — "
     "every content field of the executable AST is read by a function reachable from check_operation_document and the sum types are "
